@@ -1,0 +1,12 @@
+//go:build verif
+
+package verifhook
+
+import "go.uber.org/thriftrw/internal/git"
+
+// GitChange is one entry of the changed-file list git.Compare iterates over.
+type GitChange = git.VerifChange
+
+// GitChangedThrift returns the list of changed .thrift files that thriftbreak's
+// git.Compare would visit for the repository at path (HEAD~..HEAD).
+func GitChangedThrift(path string) ([]GitChange, error) { return git.VerifChangedThrift(path) }
